@@ -85,6 +85,11 @@ def guard_of(node, fn):
     facts = flatten_conditions(dominating_conditions(node))
     out = []
     for t, pol in facts:
+        if not pol and isinstance(t, ast.Compare) and len(t.ops) == 1 and isinstance(t.ops[0], (ast.Is, ast.IsNot)) \
+                and isinstance(t.comparators[0], ast.Constant) and t.comparators[0].value is None:
+            # `not (x is None)` and `x is not None` are one guard
+            t = ast.Compare(left=t.left, ops=[ast.IsNot() if isinstance(t.ops[0], ast.Is) else ast.Is()], comparators=t.comparators)
+            pol = True
         txt = norm(t, 80)
         if "self." in txt:
             out.append(txt if pol else f"not ({txt})")
